@@ -24,7 +24,7 @@ for diff in sorted(glob.glob('/tmp/mutwt/C*/out/m?.diff')):
     meta = json.load(open(meta_in))
   except Exception:
     meta = {}
-  d = os.path.join(ROOT, 'seeded', '%s-%s' % (pid, n))
+  d = os.path.join(ROOT, 'seeded', '%s-%s%s' % (pid, os.environ.get('ROUND', ''), n))
   if keep:
     os.makedirs(d, exist_ok=True)
     shutil.copy(diff, os.path.join(d, 'patch.diff'))
